@@ -15,6 +15,7 @@ use std::sync::Arc;
 
 pub(crate) struct Peer {
     pub(crate) send_queue: ZmqFramedWrite,
+    pub(crate) connection_id: u64,
 }
 
 pub(crate) struct GenericSocketBackend {
@@ -80,6 +81,16 @@ impl GenericSocketBackend {
     }
 }
 
+impl GenericSocketBackend {
+    /// The peer closed the connection `connection_id`: drop its send half, unless the
+    /// peer has reconnected under the same identity in the meantime.
+    pub(crate) async fn peer_closed(&self, peer_id: &PeerIdentity, connection_id: u64) {
+        self.peers
+            .remove_if_async(peer_id, |peer| peer.connection_id == connection_id)
+            .await;
+    }
+}
+
 impl SocketBackend for GenericSocketBackend {
     fn socket_type(&self) -> SocketType {
         self.socket_type
@@ -101,15 +112,24 @@ impl SocketBackend for GenericSocketBackend {
 #[async_trait]
 impl MultiPeerBackend for GenericSocketBackend {
     async fn peer_connected(self: Arc<Self>, peer_id: &PeerIdentity, io: FramedIo) {
+        let connection_id = io.connection_id;
         let (recv_queue, send_queue) = io.into_parts();
         self.peers
-            .upsert_async(peer_id.clone(), Peer { send_queue })
+            .upsert_async(
+                peer_id.clone(),
+                Peer {
+                    send_queue,
+                    connection_id,
+                },
+            )
             .await;
         self.round_robin.push(peer_id.clone());
         match &self.fair_queue_inner {
             None => {}
             Some(inner) => {
-                inner.lock().insert(peer_id.clone(), recv_queue);
+                inner
+                    .lock()
+                    .insert_connection(peer_id.clone(), recv_queue, connection_id);
             }
         };
     }
